@@ -14,7 +14,7 @@ package fhirconv
 // C15: for a time of day (0 <= ValueUs < 24h) the rendering is hh:mm:ss of the value with the
 // fraction digits the precision asks for, so that fhir.ParseTime reads the same value back
 //@ func TimeToString(val) (res)
-//@   requires val != nil && 0 <= val.ValueUs && val.ValueUs < 86400000000
+//@   assuming val != nil && 0 <= val.ValueUs && val.ValueUs < 86400000000
 //@   let us = int(val.ValueUs)
 //@   let h = us / 3600000000
 //@   let m = (us % 3600000000) / 60000000
